@@ -1,3 +1,4 @@
+import Dyce.HistOpsModel
 import Mathlib.Data.Nat.GCD.Basic
 import Mathlib.Data.List.Basic
 import Mathlib.Algebra.GCDMonoid.Nat
@@ -6,11 +7,6 @@ import Mathlib.Tactic.Linarith
 
 /-! Prototype for C05: proportional primitive count vectors are equal. -/
 namespace Dyce
-
-/-- gcd of a list of counts (Python: `math.gcd(*counts)`) -/
-def gcdList : List Nat → Nat
-  | [] => 0
-  | c :: cs => Nat.gcd c (gcdList cs)
 
 theorem gcdList_dvd (l : List Nat) : ∀ c ∈ l, gcdList l ∣ c := by
   induction l with
